@@ -8,7 +8,7 @@ rm -rf /verif/work/evidence.all.bak; cp -r /verif/evidence /verif/work/evidence.
 for d in seeded/*/; do
   id=$(basename $d)
   prop=$(python3 -c "import json;print(json.load(open('$d/meta.json'))['reported_by'][0])")
-  git -C /repo apply $d/patch.diff 2>/dev/null || { echo "$id $prop PATCH-DOES-NOT-APPLY"; continue; }
+  git -C /repo apply /verif/$d/patch.diff 2>/dev/null || { echo "$id $prop PATCH-DOES-NOT-APPLY"; continue; }
   out=$(./check $prop 2>&1 | grep -E "^VIOLATION" | head -1)
   git -C /repo checkout -- .
   if [ -z "$out" ]; then echo "$id $prop MISSED";
